@@ -238,6 +238,99 @@ def rules(ck, P):
         ck.check(len(sf) == 1 and ir.place_str(sf[0]["a"][0]).endswith("self.header.tile_data.offset"), "R-BASE", "pmtiles|read", "the reader shifts entry ranges forward by header.tile_data.offset",
                  "reader base is %s" % [ir.place_str(a["a"][0]) for a in sf], ir.loc(pr))
 
+    # ---------------- R-RANGES: every range a reader follows is the range the writer got back from the write it describes
+    wbs = fn(P, "versatiles::writer::VersaTilesWriter::write_blocks")
+    if ck.anchor("R-RANGES", "versatiles write_blocks/write_block", [x for x in (wbs, wb) if x], 2):
+        A = affine
+        # write_block returns (ByteRange::new(pos_before, pos_after - pos_before), append(index))
+        env = A.Env()
+        sts = ir.stmts_of(ir.fn_block(wb))
+        A.run(sts, env)
+        lets_b = comp.lets_of(wb)
+        tail = ir.unparen(sts[-1]) if sts else None
+        tup = None
+        for y in ir.walk_nodes(tail or {}):
+            if y.get("k") == "tup" and len(y["es"]) == 2:
+                tup = y
+                break
+        ok_ret = False
+        why = "write_block does not end in Ok((tiles_range, index_range))"
+        if tup is not None:
+            t0, t1 = tup["es"]
+            c0 = ir.strip(t0)
+            poss = [st for st in sts if st.get("k") == "let" and "init" in st and ir.contains(st["init"], lambda y: y.get("k") == "mcall" and y.get("name") == "get_position")]
+            if c0.get("k") == "call" and (c0.get("q") or "").endswith("ByteRange::new") and len(poss) == 2:
+                p0, p1 = (A.local_sym(poss[0]["pat"]), A.local_sym(poss[1]["pat"]))
+                envp = A.Env()
+                a_off, a_len = A.ev(c0["a"][0], envp), A.ev(c0["a"][1], envp)
+                stream_i = next((i for i, st in enumerate(sts) if ir.contains(st, lambda y: y.get("k") == "mcall" and y.get("name") in ("for_each_sync", "for_each_async", "for_each_buffered"))), None)
+                i0, i1 = sts.index(poss[0]), sts.index(poss[1])
+                idx_let = [st for st in sts if st.get("k") == "let" and "init" in st and ir.contains(st["init"], lambda y: y.get("k") == "mcall" and y.get("name") == "append") and
+                           ir.contains(st["init"], lambda y: y.get("k") == "mcall" and y.get("name") in ("as_brotli_blob", "as_blob"))]
+                idx_ok = len(idx_let) == 1 and ir.local_hid(t1) == idx_let[0]["pat"].get("hid") and sts.index(idx_let[0]) > i1
+                ok_ret = A.eq(a_off, p0) and A.eq(a_len, A.sub(p1, p0)) and stream_i is not None and i0 < stream_i < i1 and idx_ok
+                why = "tiles range = (%s, %s), positions taken at statements %s/%s around the tile stream at %s, index range ok=%s" % (A.show(a_off), A.show(a_len), i0, i1, stream_i, idx_ok)
+        ck.check(ok_ret, "R-RANGES", "versatiles|block-ranges", "write_block returns (position before the tiles, bytes written by the tiles) and the range of the appended tile index",
+                 "write_block's result does not describe what it wrote: %s" % why, ir.loc(wb))
+        # write_blocks stores both components in the block before it enters the block index
+        call = [n for n in ir.walk_nodes(wbs["body"]) if n.get("k") == "call" and (n.get("q") or "").endswith("VersaTilesWriter::write_block")]
+        ok_set = False
+        why = "write_block call not found"
+        if len(call) == 1:
+            dl = [n for n in ir.walk_nodes(wbs["body"]) if n.get("k") == "let" and "init" in n and ir.contains(n["init"], lambda y: y is call[0])]
+            binds = ir.pat_binds(dl[0]["pat"]) if dl else []
+            if len(binds) == 2:
+                st_ = [n for n in ir.walk_nodes(wbs["body"]) if n.get("k") == "mcall" and n.get("name") == "set_tiles_range"]
+                si_ = [n for n in ir.walk_nodes(wbs["body"]) if n.get("k") == "mcall" and n.get("name") == "set_index_range"]
+                ab = [n for n in ir.walk_nodes(wbs["body"]) if n.get("k") == "mcall" and n.get("name") == "add_block"]
+                order = {id(n): i for i, n in enumerate(ir.walk_nodes(wbs["body"]))}
+                if len(st_) == 1 and len(si_) == 1 and len(ab) == 1:
+                    bh = ir.local_hid(ab[0]["a"][0])
+                    ok_set = ir.local_hid(st_[0]["a"][0]) == binds[0]["hid"] and ir.local_hid(si_[0]["a"][0]) == binds[1]["hid"] and \
+                        ir.local_hid(st_[0]["recv"]) == bh and ir.local_hid(si_[0]["recv"]) == bh and order[id(st_[0])] < order[id(ab[0])] and order[id(si_[0])] < order[id(ab[0])]
+                why = "set_tiles_range x%d, set_index_range x%d, add_block x%d" % (len(st_), len(si_), len(ab))
+        ck.check(ok_set, "R-RANGES", "versatiles|block-stored", "both ranges returned by write_block are stored in the block (tiles, index — in that order) before it is added to the block index",
+                 "the block entering the block index does not carry both ranges of what was written (%s)" % why, ir.loc(wbs))
+        for nm, fld in (("set_tiles_range", "tiles_range"), ("set_index_range", "index_range")):
+            sb_ = fn(P, "block_definition::BlockDefinition::" + nm)
+            oks = sb_ is not None and any(n.get("k") == "assign" and ir.place_str(n["l"]) == "self." + fld and ir.local_hid(n["r"]) is not None for n in ir.walk_nodes(sb_["body"]))
+            ck.check(oks, "R-RANGES", "versatiles|" + nm, "%s stores its argument in self.%s" % (nm, fld), "%s does not assign self.%s" % (nm, fld), ir.loc(sb_) if sb_ else None)
+    # header ranges: each is the result of the append that wrote that section
+    for wname, impl_suffix, pairs in (("versatiles", "::VersaTilesWriter", (("meta_range", "write_meta"), ("blocks_range", "write_blocks"))),
+                                      ("pmtiles", "::PMTilesWriter", (("metadata", "metadata"), ("root_dir", "root_bytes"), ("leaf_dirs", "leaves_bytes")))):
+        wfn = None
+        for i in P.impls_of("::TilesWriterTrait"):
+            if i.get("self_adt", "").endswith(impl_suffix):
+                wfn = P.impl_method(i, "write_to_writer")
+        if not ck.anchor("R-RANGES", wname + " write_to_writer", [wfn] if wfn else [], 1):
+            continue
+        for fld, what in pairs:
+            asg = [n for n in ir.walk_nodes(wfn["body"]) if n.get("k") == "assign" and ir.place_str(n["l"]) == "header." + fld]
+            okh = False
+            if len(asg) == 1:
+                r = asg[0]["r"]
+                if wname == "versatiles":
+                    okh = ir.contains(r, lambda y: y.get("k") == "call" and (y.get("q") or "").endswith("VersaTilesWriter::" + what))
+                else:
+                    okh = ir.contains(r, lambda y: y.get("k") == "mcall" and y.get("name") == "append" and what in ir.place_str(y["a"][0]) + (y["a"][0].get("src") or ""))
+            ck.check(okh, "R-RANGES", "%s|header.%s" % (wname, fld), "header.%s is the range returned by the write of %s" % (fld, what), "header.%s is not assigned from the write of %s" % (fld, what), ir.loc(wfn))
+    for q_, what in (("versatiles::writer::VersaTilesWriter::write_meta", "compressed"), ("versatiles::writer::VersaTilesWriter::write_blocks", "block_index")):
+        f_ = fn(P, q_)
+        if f_ is None:
+            continue
+        sts = ir.stmts_of(ir.fn_block(f_))
+        ap = [n for n in ir.walk_nodes(f_["body"]) if n.get("k") == "mcall" and n.get("name") == "append" and what in (ir.place_str(n["a"][0]) + (n["a"][0].get("src") or ""))]
+        rets_ok = False
+        if len(ap) == 1:
+            last = sts[-1]
+            if ir.contains(last, lambda y: y is ap[0]):
+                rets_ok = True
+            else:
+                lt = [st for st in sts if st.get("k") == "let" and "init" in st and ir.contains(st["init"], lambda y: y is ap[0])]
+                rets_ok = bool(lt) and ir.contains(last, lambda y: ir.local_hid(y) == lt[0]["pat"].get("hid"))
+        ck.check(rets_ok, "R-RANGES", q_.rsplit("::", 1)[-1] + "|returns-append", "%s returns the range of its append(%s)" % (q_.rsplit("::", 1)[-1], what), "%s does not return the range of the section it appended" % q_.rsplit("::", 1)[-1], ir.loc(f_))
+
+    wire.block_geometry_rules(ck, P)
     # ---------------- R-NAME
     for fmt, adt, rdr in (("tar", "::TarTilesWriter", "tar::reader::TarTilesReader::open_path"), ("directory", "::DirectoryTilesWriter", "directory::reader::DirectoryTilesReader::open_path")):
         w = None
